@@ -100,7 +100,7 @@ def hir_sites(F, targets, crate_prefix="riscv_analysis"):
 
 
 # ============================================================================ C03
-@rule("C03", "C03.a.edge-pairing", floor=13)
+@rule("C03", "C03.a.edge-pairing", floor=6)
 def c03a(F, R):
     """every mutation of `nexts` is paired with the mirror mutation of `prevs` on the other endpoint in the same function (or the bulk idiom)"""
     muts = edge_mutators(F)
@@ -157,7 +157,7 @@ def c03a(F, R):
                 R.bad(key, f"unknown edge mutator `{name}`", loc(n))
 
 
-@rule("C03", "C03.b.edge-ownership", floor=13)
+@rule("C03", "C03.b.edge-ownership", floor=6)
 def c03b(F, R):
     """edge sets are mutated only by CFG-generation passes (never by a lint or an analysis pass)"""
     muts = edge_mutators(F)
@@ -245,7 +245,7 @@ def c03c(F, R):
                         R.bad(f"helper|{short(hp)}", f"edge-cutting helper {short(hp)} is also called from {sorted(cs - {et[0]})}", F.fn(hp)["sp"])
 
 
-@rule("C03", "C03.d.no-edge-after-jump", floor=5)
+@rule("C03", "C03.d.no-edge-after-jump", floor=3)
 def c03d(F, R):
     """fall-through is suppressed exactly after `ret` and unconditional jumps; the unconditional-jump table only contains always-taken forms"""
     gens = pass_impls(F, GENPASS)
@@ -465,13 +465,13 @@ def c01a(F, R):
     _ownership(F, R, VALUE_FIELDS, "AvailableValuePass", "C01.a")
 
 
-@rule("C02", "C02.b.liveness-ownership", floor=8)
+@rule("C02", "C02.b.liveness-ownership", floor=3)
 def c02b(F, R):
     """liveness facts (live_in, live_out, u_def) are written only by LivenessPass"""
     _ownership(F, R, LIVE_FIELDS, "LivenessPass", "C02.b")
 
 
-@rule("C12", "C12.d.fact-ownership", floor=16)
+@rule("C12", "C12.d.fact-ownership", floor=7)
 def c12d(F, R):
     """no pass other than the two analyses rewrites facts after the fixed point"""
     _ownership(F, R, VALUE_FIELDS, "AvailableValuePass", "C12.d")
@@ -508,7 +508,7 @@ def blocks_with_let(root, varname):
                     yield b, i
 
 
-@rule("C01", "C01.b.kill-before-publish", floor=3)
+@rule("C01", "C01.b.kill-before-publish", floor=2)
 def c01b(F, R):
     """between seeding out[n] from in[n] and publishing it, the written register (kill set) is always removed and ra is removed at calls; kill_reg uses the caller-saved class at calls and function entries"""
     f = _avpass_run(F)
@@ -611,7 +611,7 @@ def chain_mentions(n, name):
     return False
 
 
-@rule("C01", "C01.c.meet-is-intersection", floor=3)
+@rule("C01", "C01.c.meet-is-intersection", floor=2)
 def c01c(F, R):
     """predecessor value maps are combined only with AvailableValueMap &= (keep entries equal on both sides)"""
     f = _avpass_run(F)
@@ -689,7 +689,7 @@ def c02c(F, R):
             R.bad(f"op|{op}", f"RegisterSet {op} is implemented with {[x['op'] for x in bins]}", b["sp"])
 
 
-@rule("C02", "C02.d.class-wide-gen-kill", floor=6)
+@rule("C02", "C02.d.class-wide-gen-kill", floor=3)
 def c02d(F, R):
     """gen/kill at returns, calls, ecalls and function entries use whole convention classes"""
     gp = F.method(PNODE, "gen_reg", trait=HGKI)
@@ -713,17 +713,60 @@ def c02d(F, R):
     else:
         R.bad("gen_reg", "gen_reg shape changed: " + (detail or "UNEXTRACTABLE"), g["sp"])
     f = _livepass_run(F)
-    # branch structure: if-let calls_to_from_cfg / else-if is_ecall / is_return / is_function_entry / else
-    branches = {}
+    # per instruction kind, the blocks that compute its facts: in every if-chain of the pass that distinguishes kinds, the branch
+    # that names the kind's predicate, or - when the chain has none - its final `else` (the kind is treated like any other node)
+    KINDS = ("calls_to_from_cfg", "is_ecall", "is_return", "is_function_entry")
+    body = f["hir"]["value"]
+    lets = {}
+    for st in walk(body, pats=False):
+        if st.get("k") == "Let" and st["pat"].get("k") == "PBinding" and st.get("init") is not None:
+            lets.setdefault(st["pat"]["name"], st["init"])
+
+    def uses(blk, nm, depth=0):
+        """the block mentions the call, directly or through a named local computed from it"""
+        if mentions_call(blk, nm):
+            return True
+        if depth < 2:
+            for p_ in walk(blk, pats=False):
+                if p_.get("k") == "Path" and p_.get("res_kind") == "Local" and p_["res"] in lets and uses(lets[p_["res"]], nm, depth + 1):
+                    return True
+        return False
+    else_of = set()
+    for n in walk(body, pats=False):
+        if n.get("k") == "If" and n.get("else") is not None:
+            e_ = peel(n["else"])
+            while e_.get("k") == "Block" and not e_.get("stmts") and e_.get("expr") is not None:
+                e_ = peel(e_["expr"])
+            if e_.get("k") == "If":
+                else_of.add(id(e_))
     all_blocks = {}
-    for n in walk(f["hir"]["value"]):
-        if n.get("k") == "If":
-            c = n["cond"]
-            for nm in ("calls_to_from_cfg", "is_ecall", "is_return", "is_function_entry"):
-                if mentions_call(c, nm):
-                    all_blocks.setdefault(nm, []).append(n["then"])
-                    if nm not in branches:
-                        branches[nm] = n["then"]
+    for n in walk(body, pats=False):
+        if n.get("k") != "If" or id(n) in else_of:
+            continue
+        links, x, final_else = [], n, None
+        while x is not None and x.get("k") == "If":
+            links.append(x)
+            e_ = x.get("else")
+            if e_ is None:
+                x = None
+                break
+            e2 = peel(e_)
+            while e2.get("k") == "Block" and not e2.get("stmts") and e2.get("expr") is not None:
+                e2 = peel(e2["expr"])
+            if e2.get("k") == "If":
+                x = e2
+            else:
+                final_else, x = e_, None
+        named = [nm for nm in KINDS if any(mentions_call(l_["cond"], nm) for l_ in links)]
+        if len(named) < 2:
+            continue   # not a chain that tells instruction kinds apart (e.g. the wait test of the forward sweep)
+        for nm in KINDS:
+            hit = next((l_ for l_ in links if mentions_call(l_["cond"], nm)), None)
+            if hit is not None:
+                all_blocks.setdefault(nm, []).append(hit["then"])
+            elif final_else is not None:
+                all_blocks.setdefault(nm, []).append(final_else)
+    branches = {nm: bl[0] for nm, bl in all_blocks.items()}
     need = {
         "calls_to_from_cfg": ["argument_set", "kill_reg", "gen_reg", "caller_saved_set", "return_set"],
         "is_ecall": ["caller_saved_set", "ecall_always_argument_set", "known_ecall_signature"],
@@ -733,14 +776,15 @@ def c02d(F, R):
     for br, names in need.items():
         blk = branches.get(br)
         if blk is None:
-            R.bad(f"branch|{br}", f"LivenessPass::run has no `{br}` branch", f["sp"])
+            R.bad(f"branch|{br}", f"LivenessPass::run has no branch for `{br}` nodes", f["sp"])
             continue
-        # the live part and the u_def part of one instruction kind may sit in two sweeps of the pass: look at all its branches
-        missing = [nm for nm in names if not any(mentions_call(b_, nm) for b_ in all_blocks.get(br, [blk]))]
+        # the live part and the u_def part of one instruction kind sit in two sweeps of the pass: look at all its branches
+        missing = [nm for nm in names if not any(uses(b_, nm) for b_ in all_blocks[br])]
         if missing:
             R.bad(f"branch|{br}", f"the `{br}` transfer function no longer uses {missing}", loc(blk))
         else:
             R.ok(f"branch|{br}", detail=f"{br}: uses {names}")
+    branches = {nm: next((b_ for b_ in bl if True), None) for nm, bl in all_blocks.items()}
     # ecall live-in: (live_out - caller_saved) | ecall_always_argument_set | args
     blk = branches.get("is_ecall")
     if blk is not None:
@@ -856,7 +900,7 @@ def _reach_walk(f, extras=None):
     return out
 
 
-@rule("C11", "C11.a.membership-pairing", floor=4)
+@rule("C11", "C11.a.membership-pairing", floor=2)
 def c11a(F, R):
     """in mark_reachable a node is pushed to the function's instruction list iff it is tagged with the function, and the walk follows successor edges from the entry"""
     p = [q for q in F.fns if q.endswith("FunctionMarkupPass::mark_reachable")]
@@ -922,7 +966,7 @@ def is_top(stmt_expr, n):
     return e is n
 
 
-@rule("C11", "C11.b.annotation-ownership", floor=6)
+@rule("C11", "C11.b.annotation-ownership", floor=3)
 def c11b(F, R):
     """function annotations (Cfg/CfgNode insert_function, Function::set_*, CfgNode::set_node) are written only by FunctionMarkupPass"""
     targets = {}
@@ -945,7 +989,7 @@ def c11b(F, R):
                 R.bad(f"{t}|{root_fn(caller)}", f"`{nm}` is called from `{root_fn(caller)}`; function annotations belong to FunctionMarkupPass", term["sp"])
 
 
-@rule("C11", "C11.c.function-is-call-target", floor=4)
+@rule("C11", "C11.c.function-is-call-target", floor=3)
 def c11c(F, R):
     """a function-entry node is created exactly where a label is a call target: call names come from calls_to() (jal with rd == ra) plus the predefined interrupt names"""
     cp = F.method(PNODE, "calls_to", trait=IPROPS)
@@ -1084,7 +1128,7 @@ def fields_of(e):
     return {n["name"] for n in walk(e) if n.get("k") == "Field"}
 
 
-@rule("C11", "C11.d.single-exit", floor=4)
+@rule("C11", "C11.d.single-exit", floor=2)
 def c11d(F, R):
     """a function's exit is the first return found; every later return is rewired to it (paired edges) and set_exit is called once with it"""
     p = [q for q in F.fns if q.endswith("FunctionMarkupPass::mark_reachable")]
@@ -1177,7 +1221,7 @@ def c11e(F, R):
 
 
 # ============================================================================ C12
-@rule("C12", "C12.a.change-flags", floor=16)
+@rule("C12", "C12.a.change-flags", floor=8)
 def c12a(F, R):
     """inside each `while changed` loop every #[must_use] -> bool fact setter's result is OR-ed into `changed`"""
     setters = fact_setters(F)
@@ -1407,7 +1451,7 @@ def _stable_exit(body, run2ty, mut_names):
     return bool(mut_idx) and all(bi < i < len(stmts) - 1 for i in mut_idx[-1:]) and bi > min([i for i, s_ in enumerate(stmts) for n in walk(s_, pats=False) if n.get("k") == "Call" and callee_of(n) in run2ty] or [99])
 
 
-@rule("C12", "C12.c.pipeline-typestate", floor=6)
+@rule("C12", "C12.c.pipeline-typestate", floor=4)
 def c12c(F, R):
     """in gen_full_cfg every edge-mutating pass is followed by a value analysis, liveness runs last, and both stages build the CFG from the same nodes"""
     gp = inherent_methods(F, MANAGER).get("gen_full_cfg")
@@ -1604,8 +1648,8 @@ def c01e(F, R):
             R.bad(f"Arith|{v}", f"`{v.lower()} rd, x0, x0` is claimed to produce {c}; RV32IM gives {op}(0, 0) = {want}", loc(ar))
 
 
-@rule("C12", "C12.e.monotone-predecessor-filter", floor=3)
-@rule("C06", "C06.t.monotone-predecessor-filter", floor=3)
+@rule("C12", "C12.e.monotone-predecessor-filter", floor=2)
+@rule("C06", "C06.t.monotone-predecessor-filter", floor=2)
 def c12e(F, R):
     """in the fixed-point loops a neighbour is filtered out of the meet only by membership in a grow-only `visited` set (a filter on the facts themselves is not monotone: the iteration can oscillate forever)"""
     for f in (_avpass_run(F), _livepass_run(F)):
@@ -1652,7 +1696,7 @@ def c12e(F, R):
             R.ok(f"{fname}|no-filter", detail="no neighbour filter in the meets")
 
 
-@rule("C02", "C02.f.argument-return-inference", floor=2)
+@rule("C02", "C02.f.argument-return-inference", floor=1)
 def c02f(F, R):
     """a function's inferred arguments are entry live-out ∩ argument registers, its returns exit live-in ∩ return registers"""
     fm = inherent_methods(F, FUNC)
@@ -1673,7 +1717,7 @@ def c02f(F, R):
             R.bad(name, f"Function::{name} is no longer `{end}.{[n for n in need if n.startswith('live')][0]}() & Register::{[n for n in need if n.endswith('_set')][0]}()` (calls {sorted(calls)}, ops {[b['op'] for b in ands]})", f["sp"])
 
 
-@rule("C01", "C01.f.rewrites-do-not-resurrect", floor=4)
+@rule("C01", "C01.f.rewrites-do-not-resurrect", floor=2)
 def c01f(F, R):
     """a rewrite rule of the value analysis that loops over a map and inserts under the loop's key must loop over the map it writes (the post-kill/gen `out` map) or test that the out map still holds the looped value: a fact the node has just killed or overwritten must not be re-inserted from the `in` map"""
     avp = [q for q in F.fns if q.endswith("AvailableValuePass as riscv_analysis::passes::generation_pass::GenerationPass>::run") or q.endswith("AvailableValuePass as riscv_analysis::passes::GenerationPass>::run")]
@@ -1742,7 +1786,7 @@ def c01f(F, R):
         raise Anchor("no keyed insert inside a loop found in the rewrite rules")
 
 
-@rule("C01", "C01.g.memory-facts-respect-access-width", floor=2)
+@rule("C01", "C01.g.memory-facts-respect-access-width", floor=1)
 def c01g(F, R):
     """a stack-slot fact stands for a whole word: only a word store may generate it (a narrower store must not claim the whole register value) and only a word load may copy it into a register"""
     LT = "riscv_analysis::parser::inst::LoadType"
@@ -1779,7 +1823,7 @@ def c01g(F, R):
         R.bad("load", "rule_value_from_stack copies the slot's word value into the destination of every LoadType: after `sw t0, 0(sp)` with t0 = 0x1234, `lb t1, 0(sp)` is claimed to give 0x1234 (the machine gives 0x34)", f["sp"])
 
 
-@rule("C01", "C01.h.kill-reaches-values", floor=2)
+@rule("C01", "C01.h.kill-reaches-values", floor=1)
 def c01h(F, R):
     """a fact whose *value* is written in terms of the current contents of a register (RegisterWithScalar / MemoryAtRegister built from an operand register) is dropped from both the register map and the memory map when the node overwrites that register"""
     AV = "riscv_analysis::analysis::available::AvailableValue"
@@ -2071,8 +2115,8 @@ def c01j(F, R):
         R.bad("ecall", "the value pass kills nothing at an `ecall`: `li a0, 10; li a7, 5; ecall; addi a7, a0, 0; ecall` is analysed as an exit ecall (a0 is still claimed to be 10 after ReadInt) and the code behind it is reported unreachable", f["sp"])
 
 
-@rule("C08", "R4.scalar-offsets-respect-operand-order", floor=2)
-@rule("C01", "C01.k.scalar-offsets-respect-operand-order", floor=2)
+@rule("C08", "R4.scalar-offsets-respect-operand-order", floor=1)
+@rule("C01", "C01.k.scalar-offsets-respect-operand-order", floor=1)
 def c01k(F, R):
     """`register + k` folding: with the register-relative operand on the left any scalar operator applies to k; with the constant on the left only a commutative operator (add) keeps the form, since `c - (r + k)` is not `r + (c - k)`"""
     rp = [q for q in F.fns if q.endswith("analysis::available::rule_perform_math_ops")]
@@ -2191,7 +2235,7 @@ def c05f(F, R):
         raise Anchor("no CFG iterator implementation found")
 
 
-@rule("C02", "C02.h.branches-to-functions-are-call-sites", floor=4)
+@rule("C02", "C02.h.branches-to-functions-are-call-sites", floor=3)
 def c02h(F, R):
     """`is_some_jump_to_label` (what makes a jump or branch to a function label a call site for liveness and the dead-value lint) answers for every branch and for `jal x0, L`, and for nothing that links"""
     from .nodeprops import eval_prop, Unx
@@ -2313,7 +2357,7 @@ def c14f(F, R):
             R.bad(key, f"functions are registered under a selection of the entry's labels ({selective or ekey(it)[:40]}): a call through another label of the same entry is not recognised", loc(m))
 
 
-@rule("C11", "C11.h.entry-predicates", floor=8)
+@rule("C11", "C11.h.entry-predicates", floor=4)
 def c11h(F, R):
     """the function list is built from the nodes for which is_function_entry() holds, so every FuncEntry node - interrupt handler or not - must satisfy it (and nothing else may); is_handler_function_entry is the FuncEntry nodes flagged as handlers, is_program_entry the ProgramEntry node, is_any_entry their union; the CfgNode wrappers forward to the method of the same name; FunctionMarkupPass selects entries by is_function_entry"""
     from .nodeprops import eval_prop, Unx
@@ -2361,7 +2405,7 @@ def c11h(F, R):
             R.bad(f"{m}|CfgNode", f"CfgNode::{m} does not forward to ParserNode::{m} of its node ({ekey(b)[:60]})", F.fn(wp)["sp"])
 
 
-@rule("C01", "C01.n.entry-state-meets-what-arrives-from-inside", floor=4)
+@rule("C01", "C01.n.entry-state-meets-what-arrives-from-inside", floor=2)
 def c01n(F, R):
     """at an entry node the published facts are the caller's guarantees (the seeded original values) met with what arrives along edges from inside the function: the seeds are never written over a map derived from in[n], and before they are published they are intersected with the out-facts of the evaluated predecessors; else `f: addi sp,sp,-4; bnez a0,f; addi sp,sp,4; ret` claims sp = sp at the return"""
     f = _avpass_run(F)
@@ -2484,8 +2528,8 @@ def _rv32(op, x, y):
 _GRID = [0, 1, -1, 2, -2, 3, 31, 32, 33, 0x7FFF, -0x8000, (1 << 31) - 1, -(1 << 31), -(1 << 31) + 1, 12345678]
 
 
-@rule("C08", "R4.folds-with-an-unknown-operand-are-laws", floor=3)
-@rule("C01", "C01.p.folds-with-an-unknown-operand-are-laws", floor=3)
+@rule("C08", "R4.folds-with-an-unknown-operand-are-laws", floor=2)
+@rule("C01", "C01.p.folds-with-an-unknown-operand-are-laws", floor=2)
 def c01p(F, R):
     """the folding rule produces a value only from operands it knows; an arm that claims a constant while one operand is unknown (`0 op y = 0`) states an algebraic law, and the law must hold in RV32IM for every operator the arm's guard admits and every value of the unknown operand - checked against the manual's definition of each operator on the values where the definitions have their special cases (zero divisor, MIN / -1, shift amounts around 32) - `div rd, x0, rs` is -1 when rs is 0"""
     rp = [q for q in F.fns if q.endswith("analysis::available::rule_perform_math_ops")]
@@ -2596,7 +2640,7 @@ def c01p(F, R):
             R.ok(key, detail=f"{known[1]} op y = {claim} for op in {sorted(ops)}: holds on the special values of every operator's definition", where=loc(a))
 
 
-@rule("C02", "C02.l.liveness-removes-only-what-the-node-writes", floor=4)
+@rule("C02", "C02.l.liveness-removes-only-what-the-node-writes", floor=2)
 def c02l(F, R):
     """in every transfer function of the liveness pass the only registers removed from live_out[n] are the node's own kill set (`kill_reg()`), or the caller-saved class at an ecall: any further subtraction makes a register that a later instruction reads not live before a node that does not write it - the call-site branch also serves plain jumps and branches to function labels, which write nothing"""
     from .p_parse import parent_map
@@ -2656,9 +2700,9 @@ def c02l(F, R):
                 R.ok(f"subassign#{n}", detail="-= kill[n]")
 
 
-@rule("C02", "C02.m.basic-instruction-predicates", floor=4)
-@rule("C11", "C11.i.basic-instruction-predicates", floor=4)
-@rule("C03", "C03.g.basic-instruction-predicates", floor=4)
+@rule("C02", "C02.m.basic-instruction-predicates", floor=3)
+@rule("C11", "C11.i.basic-instruction-predicates", floor=3)
+@rule("C03", "C03.g.basic-instruction-predicates", floor=3)
 def c03g(F, R):
     """the predicates that every pass asks about an instruction are evaluated on each node kind and on the operand values that matter: `is_return` holds exactly for `jalr x0, 0(ra)` and `uret`, `is_ureturn` exactly for `uret`, `is_ecall` exactly for `ecall`; `CfgNode::is_part_of_some_function` is "the set of owning functions is not empty". A predicate that is a little wider or narrower moves returns, exits and function bodies"""
     from .nodeprops import eval_prop, Unx
@@ -2772,8 +2816,8 @@ def c03g(F, R):
             R.bad("is_part_of_some_function|unextractable", f"UNEXTRACTABLE: is_part_of_some_function ({ex})", g["sp"])
 
 
-@rule("C01", "C01.q.set-algebra-is-what-its-operators-say", floor=12)
-@rule("C02", "C02.n.set-algebra-is-what-its-operators-say", floor=12)
+@rule("C01", "C01.q.set-algebra-is-what-its-operators-say", floor=8)
+@rule("C02", "C02.n.set-algebra-is-what-its-operators-say", floor=8)
 def c02n(F, R):
     """the dataflow equations are written with `&`, `|` and `-` on RegisterSet (and `&=` on the value maps): each operator implementation is evaluated as a bit expression over one bit of each operand and must be the Boolean function its trait names - intersection, union, difference - in the plain and in the assigning form, for a set and for a single register on the right"""
     RS = "riscv_analysis::cfg::register_set::RegisterSet"
@@ -2957,8 +3001,8 @@ def c01r(F, R):
         R.bad("shape", f"UNEXTRACTABLE: `{OUT}` is not built and published in one block", f["sp"])
 
 
-@rule("C16", "C16.f.every-label-reaches-the-label-map", floor=2)
-@rule("C03", "C03.h.every-label-reaches-the-label-map", floor=2)
+@rule("C16", "C16.f.every-label-reaches-the-label-map", floor=1)
+@rule("C03", "C03.h.every-label-reaches-the-label-map", floor=1)
 def c03h(F, R):
     """when the graph is built every label that precedes an instruction is entered into the label -> node map, whichever kind of node the instruction gets (a function entry or a plain node): each place that hands the pending labels to a new node also inserts each of them into the map before the pending set is cleared; a label that misses the map cannot be jumped to, and a jump to it is an "undefined label" although it is defined"""
     cn = [q for q in F.fns if q.endswith("Cfg::new_with_predefined_call_names")]
